@@ -29,11 +29,36 @@ class VirtualClock:
         return getattr(_dt, name)
 
 
+def _targets():
+    """Every matchingproblems module that refers to the datetime module (or to
+    the datetime class) under the name `datetime`: the clock is owned wherever
+    the library can read it, not only in solver.py."""
+    import sys
+    import matchingproblems.solver.solver  # noqa: make sure it is loaded
+    out = []
+    for name, mod in list(sys.modules.items()):
+        if not name.startswith("matchingproblems") or mod is None:
+            continue
+        cur = getattr(mod, "datetime", None)
+        if cur is _dt or cur is _dt.datetime or isinstance(cur, VirtualClock):
+            out.append(mod)
+    return out
+
+
+_SAVED = {}
+
+
 def install(clock):
-    import matchingproblems.solver.solver as S
-    S.datetime = clock
+    for mod in _targets():
+        cur = getattr(mod, "datetime")
+        if not isinstance(cur, VirtualClock):
+            _SAVED[mod.__name__] = cur
+        mod.datetime = clock
 
 
 def uninstall():
-    import matchingproblems.solver.solver as S
-    S.datetime = _dt
+    import sys
+    for name, orig in _SAVED.items():
+        mod = sys.modules.get(name)
+        if mod is not None:
+            mod.datetime = orig
